@@ -33,3 +33,8 @@ Definition show_net (n : ipnet) : string :=
   (if net_v6 n then "6:" else "4:") ++ show_N (net_addr n) ++ "/" ++ show_N (net_len n).
 Definition run_ip (s : pstr) : string :=
   join " " [ show_res (show_option show_ip) (parse_ip s); show_res (show_option show_net) (parse_net s) ].
+
+(* one rule object evaluated on a sequence of operands *)
+Record rscase : Type := { rs_rule : rule; rs_whats : list val; rs_inq : option inquiry }.
+Definition run_rule_seq (c : rscase) : string :=
+  join "," (map (fun w => show_res show_val (sat (rs_rule c) w (rs_inq c))) (rs_whats c)).
